@@ -57,6 +57,17 @@ type C13Sc struct {
 	StallPM  int  `json:"stall_pm,omitempty"`
 	FollowUp bool `json:"follow_up"`
 	Clone    bool `json:"clone"`
+	// Default: the client is configured without WithKmipVersions (the library's default set, all five versions)
+	Default bool `json:"default,omitempty"`
+	// Second: another client of the same process dials a conformant server between the first client's dial and
+	// its follow-up request (state shared between clients must not change what the first one sends)
+	Second *C13Second `json:"second,omitempty"`
+}
+
+type C13Second struct {
+	Client  int  `json:"client"`
+	Default bool `json:"default,omitempty"`
+	Server  int  `json:"server"`
 }
 
 func genC13(g *simrt.Tape, tier string) any {
@@ -65,6 +76,16 @@ func genC13(g *simrt.Tape, tier string) any {
 		sc.Enforce = g.Draw(5)
 	}
 	sc.Real = g.Draw(3) == 0
+	if g.Draw(5) == 0 {
+		sc.Default = true
+		sc.Client = 31
+	}
+	if g.Draw(4) == 0 {
+		sc.Second = &C13Second{Client: 1 + g.Draw(31), Server: 1 + g.Draw(31), Default: g.Draw(2) == 0}
+		if sc.Second.Default {
+			sc.Second.Client = 31
+		}
+	}
 	sc.Order = g.Draw(120)
 	sc.Chunk = []int{simnet.ChunkMax, simnet.ChunkRandom, simnet.ChunkByte}[g.Draw(3)]
 	if g.Draw(3) == 0 {
@@ -97,6 +118,16 @@ func c13Grid(tier string) []*C13Sc {
 				out = append(out, &C13Sc{Client: c, Server: 31, Beh: b, Enforce: e, FollowUp: true, Clone: true})
 			}
 			out = append(out, &C13Sc{Client: c, Server: 0, Real: true, Enforce: e, FollowUp: true})
+		}
+	}
+	// default-set clients, alone and followed by a second default-set client against a narrower server
+	for srv := 1; srv < 32; srv++ {
+		out = append(out, &C13Sc{Client: 31, Default: true, Server: srv, Beh: behConformant, Enforce: -1, FollowUp: true, Clone: true})
+		for _, s2 := range []int{1, 3, 7, 12, 16, 21} {
+			out = append(out, &C13Sc{Client: 31, Default: true, Server: srv, Beh: behConformant, Enforce: -1, FollowUp: true,
+				Second: &C13Second{Client: 31, Default: true, Server: s2}})
+			out = append(out, &C13Sc{Client: 31, Default: true, Server: srv, Beh: behForeign, Enforce: -1, FollowUp: true,
+				Second: &C13Second{Client: 1 + (srv*7)%31, Server: s2}})
 		}
 	}
 	return out
@@ -228,6 +259,7 @@ func execC13(x *X, scAny any) {
 		csc.Conns = []ConnSc{{Rates: map[string]int{"stall": sc.StallPM}}, {Rates: map[string]int{"stall": sc.StallPM}}}
 	}
 
+	second := &c13Second{}
 	var cl *kmipclient.Client
 	var dialErr error
 	dialled, finished := false, false
@@ -235,13 +267,19 @@ func execC13(x *X, scAny any) {
 	var cloneVersion kmip.ProtocolVersion
 	nFollow := 0
 	s.Spawn("client", func() {
-		o := []kmipclient.Option{kmipclient.WithDialerUnsafe(dialer), kmipclient.WithKmipVersions(permute(cset, sc.Order)...)}
+		o := []kmipclient.Option{kmipclient.WithDialerUnsafe(dialer)}
+		if !sc.Default {
+			o = append(o, kmipclient.WithKmipVersions(permute(cset, sc.Order)...))
+		}
 		if sc.Enforce >= 0 {
 			o = append(o, kmipclient.EnforceVersion(allVersions[sc.Enforce]))
 		}
 		cl, dialErr = kmipclient.DialContext(context.Background(), "sim", o...)
 		dialled = true
 		if dialErr == nil && cl != nil {
+			if sc.Second != nil {
+				second.run(x, sc)
+			}
 			if sc.FollowUp {
 				nFollow++
 				_, followErr = cl.Request(context.Background(), &payloads.ActivateRequestPayload{UniqueIdentifier: "follow"})
@@ -379,6 +417,7 @@ func execC13(x *X, scAny any) {
 			break
 		}
 	}
+	second.judge(x, sc)
 	if followErr == nil && cloneErr == nil && len(seen) != nFollow {
 		x.Reportf("C13.harness", "seen-count", "%s: %d follow-up requests succeeded but the server saw %d", cell, nFollow, len(seen))
 	}
@@ -405,4 +444,69 @@ func init() {
 		},
 		Assumptions: []string{"cells where the real server's set lacks 1.1 assert membership only (the discovery request is framed as 1.1; whether its rejection counts as 'discovery unsupported' is not settled by the statement)", "rewriter is semantics-preserving"},
 	})
+}
+
+// c13Second is the interloper: a second client of the same process with its own conformant scripted server.
+type c13Second struct {
+	ran     bool
+	dialErr error
+	adopted kmip.ProtocolVersion
+	seen    []kmip.ProtocolVersion
+	reqErr  error
+}
+
+func (c *c13Second) run(x *X, sc *C13Sc) {
+	c.ran = true
+	cset := setOf(sc.Second.Client)
+	sset := setOf(sc.Second.Server)
+	w2 := newClientWorld(x, &ClientSc{Prop: "C13", Chunk: sc.Chunk})
+	w2.respond = func(w *clientWorld, req *kmip.RequestMessage, connIdx int) *kmip.ResponseMessage {
+		if len(req.BatchItem) == 1 {
+			if pl, ok := req.BatchItem[0].RequestPayload.(*payloads.DiscoverVersionsRequestPayload); ok {
+				common := intersect(sset, pl.ProtocolVersion)
+				slices.SortFunc(common, func(a, b kmip.ProtocolVersion) int { return ttlv.CompareVersions(b, a) })
+				return &kmip.ResponseMessage{Header: kmip.ResponseHeader{ProtocolVersion: req.Header.ProtocolVersion, TimeStamp: time.Now(), BatchCount: 1},
+					BatchItem: []kmip.ResponseBatchItem{{Operation: kmip.OperationDiscoverVersions, ResultStatus: kmip.ResultStatusSuccess,
+						ResponsePayload: &payloads.DiscoverVersionsResponsePayload{ProtocolVersion: common}}}}
+			}
+		}
+		c.seen = append(c.seen, req.Header.ProtocolVersion)
+		return echoResponse(req)
+	}
+	o := []kmipclient.Option{kmipclient.WithDialerUnsafe(w2.dialer)}
+	if !sc.Second.Default {
+		o = append(o, kmipclient.WithKmipVersions(permute(cset, sc.Order+3)...))
+	}
+	c2, err := kmipclient.DialContext(context.Background(), "sim2", o...)
+	c.dialErr = err
+	if err != nil || c2 == nil {
+		return
+	}
+	c.adopted = c2.Version()
+	_, c.reqErr = c2.Request(context.Background(), &payloads.ActivateRequestPayload{UniqueIdentifier: "second"})
+	_ = c2.Close()
+}
+
+func (c *c13Second) judge(x *X, sc *C13Sc) {
+	if !c.ran {
+		return
+	}
+	cset, sset := setOf(sc.Second.Client), setOf(sc.Second.Server)
+	cell := fmt.Sprintf("second client=%v server=%v", cset, sset)
+	want, ok := maxVersion(intersect(cset, sset))
+	switch {
+	case c.dialErr != nil && ok:
+		x.Reportf("C13.dial-fails", "second-client", "%s: Dial failed with %q, the highest common version is %v", cell, c.dialErr, want)
+	case c.dialErr == nil && !ok:
+		x.Reportf("C13.dial-succeeds-without-common-version", "second-client", "%s: Dial succeeded with %v", cell, c.adopted)
+	case c.dialErr == nil && c.adopted != want:
+		x.Reportf("C13.wrong-version", "second-client", "%s: adopted %v, expected %v (a client of the same process dialled before)", cell, c.adopted, want)
+	case c.dialErr == nil:
+		for _, v := range c.seen {
+			if v != c.adopted {
+				x.Reportf("C13.request-carries-other-version", "second-client", "%s: adopted %v but its request carried %v", cell, c.adopted, v)
+				break
+			}
+		}
+	}
 }
